@@ -299,6 +299,19 @@ func (j *qrJudge) genCase(r *gen.RNG, i int) (ref.Bits, ref.Bits) {
 	}
 	x := r.Finite()
 	y := r.FiniteNear(ref.Decode(x).Exp, -r.Range(-10, 60))
+	if xn := ref.Decode(x); i%12 == 10 && !xn.IsZero() {
+		// divisor derived from part of the dividend's coefficient (low/high word, 10^19 chunk ...), or the same
+		// value written in another cohort member (numerically equal operands, quotient exactly one)
+		if r.Chance(1, 3) {
+			if alt, ok := r.CohortMember(xn); ok {
+				y = alt
+				y.Hi ^= uint64(r.Intn(2)) << 63
+			}
+		} else {
+			y = r.WordImageOperand(sy, xn.Coef, gen.ClampExp(xn.Exp-r.Range(0, 40)))
+		}
+		j.sh.Cell("gen/derived-divisor")
+	}
 	return x, y
 }
 
